@@ -127,6 +127,40 @@ func TestC19(t *testing.T) {
 				}
 			}
 		})
+		// 2b. number spellings: the shared grid of integer / fraction / exponent digit counts
+		// (long exponents with leading zeros, 800+ digit mantissas), and exponents beyond int64
+		if e.enumStage("number-shapes", "number tokens over the shared digit-count grid (a third of it, by index) and 12 exponents beyond the int32 / int64 range, through the float readers", true) {
+			var lits []string
+			idx := 0
+			for _, li := range numShapeLens {
+				for fi := -1; fi < len(numShapeLens); fi++ {
+					lf := 0
+					if fi >= 0 {
+						lf = numShapeLens[fi]
+					}
+					for _, le := range numShapeExpLens {
+						idx++
+						if idx%3 == 0 || le >= 19 && (li <= 2 || lf <= 2) {
+							lits = append(lits, string(numShape(nil, li, lf, le, idx)))
+						}
+					}
+				}
+			}
+			lits = append(lits, "1e-99999999999999999999", "0e99999999999999999999", "0.0E+9223372036854775808", "-0e-9223372036854775809", "1e-2147483648", "1e-4294967296", "0e2147483648",
+				"1.5e-18446744073709551616", "0.000e+00000000000000000000000000000000000000000000000001", "1E-000000000000000000000000000000000000000000000000000000000000000000005", "12345678901234567890e-340282366920938463463374607431768211456", "0e340282366920938463463374607431768211456")
+			ok := true
+			for i, lit := range lits {
+				if !e.cfg.Mine(i) || !ok {
+					continue
+				}
+				for _, fn := range floatFns {
+					if !add("number-shape", fn, []byte(lit)) {
+						ok = false
+						break
+					}
+				}
+			}
+		}
 		// 3. integers round the type bounds
 		if e.enumStage("integers", "integers within 40 of each type bound and digit-count switch-over, both signs, all integer readers and Decode forms", true) {
 			ok := true
